@@ -791,7 +791,108 @@ class CFGBuilder:
             return []
         return [(after, "norm")]
 
+    def _generator_target(self, it: ast.AST) -> Optional[FunctionInfo]:
+        """The generator function behind `for x in helper(...)`, when helper was introduced after the rules were written,
+        yields through at most three plain `yield e` statements and never `return`s."""
+        if not isinstance(it, ast.Call):
+            return None
+        c = self._pre.get(id(it)) or self.prog.resolve_call(it, self.fn)
+        if c is None or c.kind != "func" or len(c.funcs) != 1:
+            return None
+        t = c.funcs[0]
+        if self.prog.is_known(t) or isinstance(t.node, ast.Lambda) or t.decorators and any(
+                d.split(".")[-1] == "contextmanager" for d in t.decorators):
+            return None
+        if t.qname in self._inline_stack or len(self._inline_stack) > 3:
+            return None
+        own = list(ast.walk(t.node))
+        ys = [x for x in own if isinstance(x, (ast.Yield, ast.YieldFrom))]
+        if not ys or len(ys) > 3 or any(isinstance(y, ast.YieldFrom) for y in ys):
+            return None
+        if any(isinstance(x, ast.Return) for x in own) or any(isinstance(x, (ast.FunctionDef, ast.Lambda)) and x is not t.node for x in own):
+            return None
+        if not all(any(isinstance(x, ast.Expr) and x.value is y for x in own) for y in ys):
+            return None
+        return t
+
+    @staticmethod
+    def _toplevel(body: Sequence[ast.stmt], kinds: tuple) -> bool:
+        """Does `body` contain a statement of `kinds` that belongs to it (not to a loop / function nested inside it)?"""
+        stack: List[ast.AST] = list(body)
+        while stack:
+            x = stack.pop()
+            if isinstance(x, kinds):
+                return True
+            if isinstance(x, (ast.For, ast.AsyncFor, ast.While, ast.FunctionDef, ast.AsyncFunctionDef, ast.Lambda, ast.ClassDef)):
+                continue
+            stack.extend(ast.iter_child_nodes(x))
+        return False
+
     def _for(self, st: ast.AST, pending: Pending) -> Pending:
+        gt = self._generator_target(st.iter) if not st.orelse else None  # type: ignore[attr-defined]
+        if gt is not None and not self._toplevel(st.body, (ast.Break,)):  # type: ignore[attr-defined]
+            # `for x in helper(...): BODY` over a generator introduced later: the generator's body runs in place, each
+            # `yield e` replaced by `x = e; BODY` (a `continue` in BODY resumes the generator after the yield)
+            key = ("gen", id(st))
+            cache = self.__dict__.setdefault("_synth", {})
+            if key not in cache:
+                import copy
+                body, binds = self._instantiate(st.iter, gt)  # type: ignore[arg-type]
+                pre: List[ast.stmt] = []
+                for nm, arg in binds:
+                    b = ast.Assign(targets=[ast.Name(id=nm, ctx=ast.Store())], value=arg)
+                    ast.copy_location(b, st)
+                    ast.fix_missing_locations(b)
+                    pre.append(b)
+                has_continue = self._toplevel(st.body, (ast.Continue,))  # type: ignore[attr-defined]
+
+                def block(val: Optional[ast.AST], at: ast.AST) -> List[ast.stmt]:
+                    a = ast.Assign(targets=[copy.deepcopy(st.target)], value=val if val is not None else ast.Constant(value=None))  # type: ignore[attr-defined]
+                    ast.copy_location(a, st)
+                    ast.fix_missing_locations(a)
+                    inner: List[ast.stmt] = list(st.body)  # type: ignore[attr-defined]
+                    if has_continue:
+                        once = ast.For(target=ast.Name(id="_once__gen", ctx=ast.Store()),
+                                       iter=ast.Tuple(elts=[ast.Constant(value=0)], ctx=ast.Load()), body=inner, orelse=[])
+                        ast.copy_location(once, st)
+                        ast.fix_missing_locations(once)
+                        inner = [once]
+                    return [a] + inner
+
+                def subst(stmts: List[ast.stmt]) -> None:
+                    i = 0
+                    while i < len(stmts):
+                        x = stmts[i]
+                        if isinstance(x, ast.Expr) and isinstance(x.value, ast.Yield):
+                            rep = block(x.value.value, x)
+                            stmts[i:i + 1] = rep
+                            i += len(rep)
+                            continue
+                        for fld in ("body", "orelse", "finalbody"):
+                            sub = getattr(x, fld, None)
+                            if isinstance(sub, list) and sub and isinstance(sub[0], ast.stmt):
+                                subst(sub)
+                        for h in getattr(x, "handlers", []) or []:
+                            subst(h.body)
+                        i += 1
+
+                subst(body)
+                cache[key] = pre + body
+            synth = cache[key]
+            for a in st.iter.args:  # type: ignore[attr-defined]
+                pending = self.expr(a.value if isinstance(a, ast.Starred) else a, pending, st)
+            for kw in st.iter.keywords:  # type: ignore[attr-defined]
+                pending = self.expr(kw.value, pending, st)
+            cn = self.new("call", st.iter, st)  # type: ignore[attr-defined]
+            self.g.nodes[cn].callee = self._pre.get(id(st.iter)) or self.prog.resolve_call(st.iter, self.fn)  # type: ignore[attr-defined]
+            self.g.nodes[cn].flags.add("inlined")
+            self.connect(pending, cn)
+            self.g.inlined_calls[id(st.iter)] = gt  # type: ignore[attr-defined]
+            self._inline_stack.append(gt.qname)
+            try:
+                return self.stmts(synth, [(cn, "norm")])
+            finally:
+                self._inline_stack.pop()
         uid = self._next_uid()
         pending = self.expr(st.iter, pending, st)  # type: ignore[attr-defined]
         head = self.new("loop", st, st)
